@@ -96,6 +96,9 @@ func (h *harness) checkAsof() bool {
 	if n == 0 {
 		return true
 	}
+	// the concurrent reader must be idle: the inspector cannot wait for a lock it holds
+	h.dbMu.Lock()
+	defer h.dbMu.Unlock()
 	ok := true
 	s.Inspect(func() {
 		h.observe()
@@ -140,6 +143,20 @@ func (h *harness) checkAsof() bool {
 			h.fail("C19/asof", "", "stepping back past the first state returned %d %s", t, res)
 			ok = false
 			return
+		}
+		// the lookups made while the history was running must agree with the final list of states
+		for _, q := range h.asofLog {
+			want := times[0]
+			for i := range times {
+				if times[i] <= q.t {
+					want = times[i]
+				}
+			}
+			if q.r != want {
+				h.fail("C19/asof", "C19/asof/answer-changed", "a lookup made during the history, Asof(%d), landed on the state of time %d, but the most recent persisted state at or before that time is the one of time %d (state times %v)", q.t, q.r, want, times)
+				ok = false
+				return
+			}
 		}
 		// forwards again
 		rt = h.db.NewReadTran()
